@@ -45,6 +45,8 @@ def _phot_requests():
     return {
         'plain1': lambda o: obs(o, o(d1, init_params=tab(p1))),
         'plain2': lambda o: obs(o, o(d2, init_params=tab(p2))),
+        # the same sources started a fraction of a pixel elsewhere (e.g. a rerun from earlier fit results): same nearest pixels, other annuli
+        'plain1_subpix': lambda o: obs(o, o(d1, init_params=tab([(round(a + 0.2) - 0.3 - 0.2, round(b - 0.15) + 0.35 + 0.15) for a, b in p1]))),
         'groupid': lambda o: obs(o, o(d1, init_params=tab(p1, group_id=[1, 1, 2, 3]))),
         'localbkg': lambda o: obs(o, o(d1, init_params=tab(p1, local_bkg=[1.0, 2.0, 0.5, 0.0]))),
         'masked': lambda o: obs(o, o(d1, mask=mask, init_params=tab(p1))),
@@ -206,7 +208,9 @@ def _misc_setup():
     def mk_lb():
         from photutils.background import LocalBackground
         return LocalBackground(5.0, 9.0)
-    lb_req = {'img1': lambda o: o(d1, x1, y1), 'img2': lambda o: o(d2, x1, y1), 'img1_masked': lambda o: o(d1, x1, y1, mask=mask), 'scalar': lambda o: o(d1, 20.0, 20.0)}
+    lb_req = {'img1': lambda o: o(d1, x1, y1), 'img2': lambda o: o(d2, x1, y1), 'img1_masked': lambda o: o(d1, x1, y1, mask=mask), 'scalar': lambda o: o(d1, 20.0, 20.0),
+              'img1_subpix': lambda o: o(d1 + 0.3 * np.arange(d1.shape[1])[None, :] ** 1.5, np.round(x1) + 0.35, np.round(y1) - 0.3),
+              'img1_ramp': lambda o: o(d1 + 0.3 * np.arange(d1.shape[1])[None, :] ** 1.5, np.round(x1) - 0.3, np.round(y1) + 0.2)}
 
     def mk_dp():
         from photutils.utils import ImageDepth
@@ -225,7 +229,7 @@ def kinds(quick):
     emk, ereq = _ellipse_setup()
     gmk, greq = _gridded_setup()
     k = {
-        'PSFPhotometry': dict(make=_phot_make, reqs=pm, config=_phot_config, depth=3 if quick else 3, subset=['plain1', 'groupid', 'nosources', 'masked', 'finder', 'localbkg', 'plain2'][:(5 if quick else 7)]),
+        'PSFPhotometry': dict(make=_phot_make, reqs=pm, config=_phot_config, depth=3 if quick else 3, subset=['plain1', 'plain1_subpix', 'groupid', 'nosources', 'masked', 'finder', 'localbkg', 'plain2'][:(5 if quick else 8)]),
         'IterativePSFPhotometry': dict(make=_iter_make, reqs=pm, config=_phot_config, depth=2, subset=['plain1', 'nosources', 'finder'] + ([] if quick else ['groupid', 'masked', 'plain2'])),
         'DAOStarFinder': dict(make=_finder_make('dao'), reqs=fr, config=None, depth=3, subset=list(fr)),
         'IRAFStarFinder': dict(make=_finder_make('iraf'), reqs=fr, config=None, depth=3, subset=list(fr)),
